@@ -210,6 +210,7 @@ class MibCompiler(object):
         canonicalMibNames = {}
         lookedUpMibs = set()
         brokenMibImports = {}
+        parsedFiles = set()
 
         while mibsToParse or brokenMibImports:
             if not mibsToParse:
@@ -241,7 +242,19 @@ class MibCompiler(object):
                 try:
                     fileInfo, fileData = source.getData(mibname)
 
+                    if (fileInfo.path, fileInfo.name) in parsedFiles:
+                        # found under another name before (-MIB suffix ...)
+                        debug.logger & debug.flagCompiler and debug.logger(
+                            '%s has been read before' % fileInfo.path)
+
+                        if mibname in mibnames:
+                            break
+
+                        continue
+
                     mibTrees = self._parser.parse(fileData)
+
+                    parsedFiles.add((fileInfo.path, fileInfo.name))
 
                     if not mibTrees:
                         # nothing but white space or comments in there:
